@@ -670,6 +670,19 @@ def gen_programs(seed: int, n: int, *, big_args: bool = False) -> list[dict[str,
             # make later calls on the same connection differ for reasons unrelated to externalization
             if m["kind"] != "unary" and m["init"]["act"][0] == "raise":
                 m["init"]["act"] = ("ok",)
+        # a producer and an exchange whose binary batches do not shrink under any codec (photos, parquet pages, ...)
+        p["methods"].append(
+            {
+                "name": "prnd",
+                "kind": "producer",
+                "params": [],
+                "header": rng.random() < 0.3,
+                "out_cols": ["b", "i"],
+                "init": {"logs": [], "act": ("ok",)},
+                "steps": [{"logs": [("INFO", "r", {})] if rng.random() < 0.5 else [], "act": "emit", "rows": rng.choice([1, 3]), "pad": rng.choice([300, 3000, 20000]), "rnd": True} for _ in range(rng.choice([1, 2, 3]))],
+            }
+        )
+        p["calls"].insert(rng.randrange(len(p["calls"]) + 1), {"m": "prnd", "args": {}, "take": None, "end": "close"})
         if big_args:
             # make sure there are methods with sizeable str / bytes parameters and exchange inputs
             p["methods"].append({"name": "ubig", "kind": "unary", "params": [("s", ("str",)), ("b", ("bytes",)), ("k", ("int",))], "ret": ("int",), "u": {"logs": [("INFO", "big", {})], "act": ("echo", "k")}})
